@@ -7,7 +7,7 @@
 (* the set of reachable states is the set of expressions up to the bounds. *)
 (* Every state is checked (ParserAgreement) and printed with its value.    *)
 (***************************************************************************)
-EXTENDS Expr, TLC, Json
+EXTENDS Expr, TLC, Json, IOUtils
 
 CONSTANTS FullLits,    \* literals for expressions of weight <= 1
           SmallLits,   \* ... of weight 2
@@ -15,41 +15,61 @@ CONSTANTS FullLits,    \* literals for expressions of weight <= 1
           Ops,         \* binary operators used
           MaxBin, MaxUn, MaxWrap, MaxWeight
 
-VARIABLE toks
+(* toks: the expression.  nb, nu, nw: its number of binary operators, unary operators, and
+   parentheses/function wraps (functions of toks, carried along so that guards are cheap). *)
+VARIABLES toks, nb, nu, nw
+vars == <<toks, nb, nu, nw>>
 
 NBin(ts) == Cardinality({i \in 1..Len(ts) : IsBinAt(ts, i)})
 NUn(ts) == Cardinality({i \in 1..Len(ts) : ts[i] \in UnOps /\ ~IsBinAt(ts, i)})
 NWrap(ts) == Cardinality({i \in 1..Len(ts) : ts[i] = "("})
-Weight(ts) == NBin(ts) + NUn(ts) + NWrap(ts)
+CountersOK == nb = NBin(toks) /\ nu = NUn(toks) /\ nw = NWrap(toks)
+Weight == nb + nu + nw
 LitsOf(ts) == {ts[i] : i \in {j \in 1..Len(ts) : ts[j] \in Lits}}
 Pool(w) == IF w <= 1 THEN FullLits ELSE IF w = 2 THEN SmallLits ELSE TinyLits
 HasTopBin(ts) == \E i \in 1..Len(ts) : IsBinAt(ts, i) /\ TopAt(ts, i)
 
-WithinBounds(ts) ==
-  /\ NBin(ts) <= MaxBin
-  /\ NUn(ts) <= MaxUn
-  /\ NWrap(ts) <= MaxWrap
-  /\ Weight(ts) <= MaxWeight
-  /\ LitsOf(ts) \subseteq Pool(Weight(ts))
+(* Several TLC processes share one enumeration: process K of N applies, as the FIRST binary operator
+   of an expression, only the operators of its share (environment EXPR_PART_K / EXPR_PART_N). *)
+PartN == IF "EXPR_PART_N" \in DOMAIN IOEnv THEN atoi(IOEnv.EXPR_PART_N) ELSE 1
+PartK == IF "EXPR_PART_K" \in DOMAIN IOEnv THEN atoi(IOEnv.EXPR_PART_K) ELSE 0
+OpOrder == <<"||", "&&", "|", "^", "&", "==", "!=", "<", "<=", ">", ">=", "<<", ">>", "+", "-", "*", "/", "%">>
+MyFirstOps == {OpOrder[i] : i \in {j \in 1..Len(OpOrder) : j % PartN = PartK}} \cap Ops
+OpsHere == IF nb = 0 THEN MyFirstOps ELSE Ops
 
-AnyLit == FullLits \cup SmallLits \cup TinyLits
+(* the expression may grow by weight dw: the bound holds and its literals lie in the pool of the new weight *)
+CanGrow(dw) == /\ Weight + dw <= MaxWeight
+               /\ LitsOf(toks) \subseteq Pool(Weight + dw)
+NewLits(dw) == Pool(Weight + dw)
 
-Init == toks \in {<<l>> : l \in FullLits}
+Init == toks \in {<<l>> : l \in FullLits} /\ nb = 0 /\ nu = 0 /\ nw = 0
 
-AppBin == \E op \in Ops, l \in AnyLit : toks' = toks \o <<op, l>>
-AppBinUn == \E op \in Ops, u \in UnOps, l \in AnyLit : toks' = toks \o <<op, u, l>>
-PreUn == \E u \in UnOps : toks' = <<u>> \o toks
-Wrap == HasTopBin(toks) /\ toks' = <<"(">> \o toks \o <<")">>
-PreBin == /\ toks[1] \in {"("} \cup Fns2 \cup Fns1
-          /\ \E op \in Ops, l \in AnyLit : toks' = <<l, op>> \o toks
-FnWrap == \/ \E f \in Fns2, l \in AnyLit :
-                \/ toks' = <<f, "(">> \o toks \o <<",", l, ")">>
-                \/ toks' = <<f, "(", l, ",">> \o toks \o <<")">>
-          \/ toks' = <<"ALIGN", "(">> \o toks \o <<")">>
+AppBin == /\ nb < MaxBin /\ CanGrow(1)
+          /\ \E op \in OpsHere, l \in NewLits(1) : toks' = toks \o <<op, l>>
+          /\ nb' = nb + 1 /\ UNCHANGED <<nu, nw>>
+AppBinUn == /\ nb < MaxBin /\ nu < MaxUn /\ CanGrow(2)
+            /\ \E op \in OpsHere, u \in UnOps, l \in NewLits(2) : toks' = toks \o <<op, u, l>>
+            /\ nb' = nb + 1 /\ nu' = nu + 1 /\ UNCHANGED nw
+PreUn == /\ nu < MaxUn /\ CanGrow(1)
+         /\ \E u \in UnOps : toks' = <<u>> \o toks
+         /\ nu' = nu + 1 /\ UNCHANGED <<nb, nw>>
+Wrap == /\ nw < MaxWrap /\ CanGrow(1) /\ HasTopBin(toks)
+        /\ toks' = <<"(">> \o toks \o <<")">>
+        /\ nw' = nw + 1 /\ UNCHANGED <<nb, nu>>
+PreBin == /\ nb < MaxBin /\ CanGrow(1)
+          /\ toks[1] \in {"("} \cup Fns2 \cup Fns1
+          /\ \E op \in OpsHere, l \in NewLits(1) : toks' = <<l, op>> \o toks
+          /\ nb' = nb + 1 /\ UNCHANGED <<nu, nw>>
+FnWrap == /\ nw < MaxWrap /\ CanGrow(1)
+          /\ \/ \E f \in Fns2, l \in NewLits(1) :
+                   \/ toks' = <<f, "(">> \o toks \o <<",", l, ")">>
+                   \/ toks' = <<f, "(", l, ",">> \o toks \o <<")">>
+             \/ toks' = <<"ALIGN", "(">> \o toks \o <<")">>
+          /\ nw' = nw + 1 /\ UNCHANGED <<nb, nu>>
 
-Next == (AppBin \/ AppBinUn \/ PreUn \/ Wrap \/ PreBin \/ FnWrap) /\ WithinBounds(toks')
+Next == AppBin \/ AppBinUn \/ PreUn \/ Wrap \/ PreBin \/ FnWrap
 
-Spec == Init /\ [][Next]_toks
+Spec == Init /\ [][Next]_vars
 
 (* ---- what is checked / exported on every expression ------------------- *)
 ParserAgreement == ParserAgreementAt(toks)
@@ -64,8 +84,9 @@ Rec(ts) ==
       vw == IF differs THEN Eval(wp.ast, TRUE) ELSE v
       vwu == IF differs THEN (IF hd THEN Eval(wp.ast, FALSE) ELSE vw) ELSE vu
   IN [t |-> ts, st |-> v.st, v |-> v.w,
-      w |-> Weight(ts), nb |-> NBin(ts),
+      w |-> nb + nu + nw, nb |-> nb,
       wp |-> IF ~wp.ok THEN "reject" ELSE IF differs THEN "diff" ELSE "same",
+      az |-> AlignOfZero(ast),
       alt |-> [udiv |-> vu, wildprec |-> vw, wildprec_udiv |-> vwu]]
 
 Emit == PrintT(<<"REPLAY", ToJson(Rec(toks))>>)
@@ -74,5 +95,5 @@ Emit == PrintT(<<"REPLAY", ToJson(Rec(toks))>>)
 UdivNeverDiffers == LET ast == CParse(toks) IN HasDiv(toks) => Eval(ast, FALSE) = Eval(ast, TRUE)
 WildTableNeverDiffers == LET wp == Climb(WildTable, toks) IN wp.ok => wp.ast = CParse(toks)
 
-ASSUME WSelfTest({LitVal[l] : l \in {"0", "3", "65", "0x100000000", "0x8000000000000000", "0xffffffffffffffff", "0xfffffffffffffffa"}})
+ASSUME CTableMatchesCPrec
 =============================================================================
